@@ -35,17 +35,25 @@ def main():
     ap.add_argument('--seed', default='0')
     ap.add_argument('--par', type=int, default=10)
     ap.add_argument('--skip-tests', action='store_true')
+    ap.add_argument('--worktree', help='use this existing clean scratch worktree instead of creating one (it is restored afterwards)')
     a = ap.parse_args()
     patch = os.path.abspath(a.patch)
-    wt = tempfile.mkdtemp(prefix='evalwt-', dir='/tmp')
-    os.rmdir(wt)
+    own = not a.worktree
+    if own:
+        wt = tempfile.mkdtemp(prefix='evalwt-', dir='/tmp')
+        os.rmdir(wt)
+    else:
+        wt = os.path.abspath(a.worktree)
     out = tempfile.mkdtemp(prefix='evalout-', dir='/tmp')
     result = {'patch': patch, 'checks': {}}
     try:
-        r = sh(['git', '-C', '/repo', 'worktree', 'add', '-q', '--detach', wt, 'HEAD'])
-        if r.returncode:
-            print('worktree failed:', r.stdout)
-            return 2
+        if own:
+            r = sh(['git', '-C', '/repo', 'worktree', 'add', '-q', '--detach', wt, 'HEAD'])
+            if r.returncode:
+                print('worktree failed:', r.stdout)
+                return 2
+        else:
+            sh(['git', '-C', wt, 'checkout', '--', 'glom'])
         demo_clean = None
         if a.demo:
             d = sh([PY, os.path.abspath(a.demo)], cwd=wt, env=dict(os.environ, PYTHONPATH=wt, PYTHONDONTWRITEBYTECODE='1'), timeout=600)
@@ -94,10 +102,13 @@ def main():
         print('JSON ' + json.dumps(result))
         return 0
     finally:
-        sh(['git', '-C', '/repo', 'worktree', 'remove', '--force', wt])
-        shutil.rmtree(wt, ignore_errors=True)
+        if own:
+            sh(['git', '-C', '/repo', 'worktree', 'remove', '--force', wt])
+            shutil.rmtree(wt, ignore_errors=True)
+            sh(['git', '-C', '/repo', 'worktree', 'prune'])
+        else:
+            sh(['git', '-C', wt, 'checkout', '--', 'glom'])
         shutil.rmtree(out, ignore_errors=True)
-        sh(['git', '-C', '/repo', 'worktree', 'prune'])
 
 
 if __name__ == '__main__':
